@@ -58,6 +58,9 @@ func scriptRT(s *exec.State, v abs.V) {
 			if s.Buf[2] != nil {
 				s.Unmarshal(kind, 2, 5)
 			}
+			// the caller edits the decoded packet; the same octets decoded afterwards give what they gave before
+			s.Scribble(2)
+			s.Unmarshal(kind, 1, 7)
 		}
 	}
 	s.Datagram(1, 3)
